@@ -3744,6 +3744,18 @@ class RockRidgeContinuationBlock:
 
         return offset
 
+    def is_empty(self):
+        # type: () -> bool
+        """
+        Whether no entry is placed in this Rock Ridge Continuation Block.
+
+        Parameters:
+         None.
+        Returns:
+         True if this block holds no entries, False otherwise.
+        """
+        return not self._entries
+
     def remove_entry(self, offset, length):
         # type: (int, int) -> None
         """
